@@ -49,10 +49,79 @@ def run(ctx):
                 perms = perms[:1]
             for perm in perms:
                 cases.append((fabric, regime, perm, loc, quick))
+    scale_invariance(ctx)
     parallel_cases(ctx, case, cases)
     ctx.floor("C04.lie.df", len(cases) * 3)
     ctx.floor("C04.lie.dA", len(cases) * 3)
     ctx.floor("C04.twofold", len(cases) * 6)
+
+
+def scale_invariance(ctx):
+    """The scalars by which the driver non-dimensionalises its inputs and re-dimensionalises the rates must be
+    invariant under L -> Q L Q^T (Lie derivative 0).  Library fact used: eigenvalues of a matrix M are invariant
+    when M transforms by conjugation (checked: D_k(M) == [J_k, M] for the matrix handed to the eigen-solver)."""
+    from . import driver
+    ctx.rule("C04.scale", "every scalar used by eval_rhs to scale the inputs of the rate kernel or its outputs has zero Lie derivative under L -> Q·L·Q^T")
+    mloc = ctx.program.loc(ctx.program.module("pydrex.minerals"), ctx.program.require_method("pydrex.minerals.Mineral", "update_orientations")) + " (eval_rhs)"
+    R = driver.run_update(ctx, N=2)
+    if R.exc is not None or not R.rhs_calls or not R.deriv_calls:
+        ctx.ob("C04.scale", "eval_rhs", False, f"update raised {R.exc!r}", mloc)
+        return
+    t, y, res = R.rhs_calls[0]
+    kw = R.deriv_calls[0][1]
+    Lm = R.Lfun.fn(R.I, t, R.xfun.fn(R.I, t))
+    Dm = (Lm + Lm.T) / 2
+    scalars = {}
+    try:
+        scalars["strain_rate divisor"] = alg.unfold_all(lift(Dm[0, 0])) / alg.unfold_all(lift(kw["strain_rate"][0, 0]))
+        scalars["velocity_gradient divisor"] = alg.unfold_all(lift(Lm[0, 1])) / alg.unfold_all(lift(kw["velocity_gradient"][0, 1]))
+        scalars["orientation-rate multiplier"] = alg.unfold_all(lift(res[9])) / alg.sym("dA1[0,0,0]")
+        scalars["volume-rate multiplier"] = alg.unfold_all(lift(res[-1])) / alg.sym(f"df1[{R.N - 1}]")
+    except Exception as ex:
+        ctx.ob("C04.scale", "eval_rhs", "inconclusive", f"could not isolate the scale factors: {ex}", mloc)
+        return
+    Latoms = {}
+    for i in range(3):
+        for j in range(3):
+            (a,) = alg.atoms_of(Lm[i, j])
+            Latoms[(i, j)] = a
+    for k, J in enumerate(generators()):
+        datom = {}
+        dL = J @ Lm - Lm @ J
+        for (i, j), a in Latoms.items():
+            datom[a] = dL[i, j]
+        datom["__support__"] = set(Latoms.values())
+        for name, s in scalars.items():
+            memo = {}
+            # eigen-solver atoms: invariant iff their argument transforms by conjugation
+            for a in alg.atoms_of(s, deep=True):
+                if a.kind == "fn:eigvalsh":
+                    tri = a.args[0]
+                    Mx = np.empty((3, 3), dtype=object)
+                    q = 0
+                    for i in range(3):
+                        for j in range(i + 1):
+                            Mx[i, j] = Mx[j, i] = tri[q]
+                            q += 1
+                    cov = all(alg.decide(alg.derive(lift(Mx[i, j]), datom, {}), (J @ Mx - Mx @ J)[i, j])[0] == "equal" for i in range(3) for j in range(3))
+                    if cov:
+                        memo[a] = ZERO
+            def f(s=s, memo=memo):
+                # numeric forward-mode screen (eigenvalue atoms verified covariant above are invariant)
+                for seed in (1, 2):
+                    dat = dict(datom)
+                    for a_, z_ in memo.items():
+                        dat[a_] = z_
+                    v0, d0 = alg.evald(s, dat, seed)
+                    if d0 == d0 and abs(d0) > 1e-6 * max(1.0, abs(v0)):
+                        return False, f"D_{k + 1}({short(s, 100)}) = {d0:.6g} at witness point seed={seed} (value {v0:.6g}): the scale depends on the reference frame"
+                d = alg.derive(s, datom, memo)
+                v, info = alg.decide(d, ZERO)
+                if v == "equal":
+                    return True, ""
+                return (False if v == "differ" else "inconclusive"), f"D_{k + 1}({short(s, 100)}) = {short(d, 120)}: the scale depends on the reference frame"
+            ctx.check("C04.scale", f"{name}:J{k + 1}", f, mloc)
+    ctx.floor("C04.scale", 12)
 
 
 def case(ctx, c):
